@@ -3381,7 +3381,8 @@ class SetInstance(object):
                 select_list, attr_offsets = rentity._construct_select_clause_()
             else:
                 table_name = attr.table
-                select_list = [ 'ALL' ] + [ [ 'COLUMN', None, column ] for column in attr.columns ]
+                columns = attr.columns if not attr.symmetric else attr.reverse_columns  # the same as in construct_sql_m2m
+                select_list = [ 'ALL' ] + [ [ 'COLUMN', None, column ] for column in columns ]
                 attr_offsets = None
             sql_ast = [ 'SELECT', select_list, [ 'FROM', [ None, 'TABLE', table_name ] ],
                         where_list, [ 'LIMIT', 1 ] ]
